@@ -52,6 +52,10 @@ def generate(rng, tier, mult):
     per = 12
     for gi, i in enumerate(range(0, len(cs), per)):
         ops = list(head)
+        if gi % 3 == 2:
+            ops, route = send_context(rng, "chunked")       # any other route into a chunked SendBody (lib.send_context)
+            _stats["routes"] = _stats.get("routes", {})
+            _stats["routes"][route] = _stats["routes"].get(route, 0) + 1
         meta = []
         group = cs[i:i + per]
         if gi % 2 == 1:
@@ -84,7 +88,7 @@ def generate(rng, tier, mult):
                 space -= c + len("%x" % c) + 4
             left -= took
             steps += 1
-        ops = list(head) + ["body z%d" % total]
+        ops = (list(head) if rng.random() < 0.6 else send_context(rng, "chunked")[0]) + ["body z%d" % total]
         for _ in range(steps):
             ops.append("write_from %s %s" % (num(total), num(cap)))
         ops += ["write_from #10 %s" % num(cap), "q_can_proceed"]
